@@ -62,6 +62,7 @@ import (
 	"sort"
 	"strings"
 	"sync"
+	"sync/atomic"
 	"testing"
 
 	"github.com/Eyevinn/mp4ff/avc"
@@ -286,10 +287,14 @@ func (in *input) materialise() ([]byte, error) {
 // jobs
 
 var (
-	encKey  = []byte{0x00, 0x11, 0x22, 0x33, 0x44, 0x55, 0x66, 0x77, 0x88, 0x99, 0xaa, 0xbb, 0xcc, 0xdd, 0xee, 0xff}
-	encIV   = []byte{0x10, 0x21, 0x32, 0x43, 0x54, 0x65, 0x76, 0x87, 0x98, 0xa9, 0xba, 0xcb, 0xdc, 0xed, 0xfe, 0x0f}
-	encKID  = "11112222333344445555666677778888"
-	infoLvl = "all:1"
+	// cryptArgs: IV (16 bytes, or its first 8), key (16 bytes), 16 spare bytes: one backing array, shared read-only
+	cryptArgs         = append(append(append([]byte{}, encIV...), encKey...), 0xa1, 0xa2, 0xa3, 0xa4, 0xa5, 0xa6, 0xa7, 0xa8, 0xa9, 0xaa, 0xab, 0xac, 0xad, 0xae, 0xaf, 0xb0)
+	cryptArgsPristine = append([]byte{}, cryptArgs...)
+	cryptArgsModified atomic.Bool
+	encKey            = []byte{0x00, 0x11, 0x22, 0x33, 0x44, 0x55, 0x66, 0x77, 0x88, 0x99, 0xaa, 0xbb, 0xcc, 0xdd, 0xee, 0xff}
+	encIV             = []byte{0x10, 0x21, 0x32, 0x43, 0x54, 0x65, 0x76, 0x87, 0x98, 0xa9, 0xba, 0xcb, 0xdc, 0xed, 0xfe, 0x0f}
+	encKID            = "11112222333344445555666677778888"
+	infoLvl           = "all:1"
 )
 
 type result struct {
@@ -599,6 +604,19 @@ func runJob(j job, in *input, shared []byte, private bool) (res result) {
 		if err != nil {
 			return fail("NewUUIDFromString", err)
 		}
+		// key and IV are handed over as sub-slices of one buffer all goroutines share (read-only): an 8- or 16-byte IV
+		// with the key and spare bytes behind it in the same backing array
+		iv := cryptArgs[:16:len(cryptArgs)]
+		if j.Mode&2 != 0 {
+			iv = cryptArgs[:8:len(cryptArgs)]
+		}
+		key := cryptArgs[16:32:len(cryptArgs)]
+		defer func() {
+			if !bytes.Equal(cryptArgs, cryptArgsPristine) {
+				cryptArgsModified.Store(true)
+			}
+		}()
+		encKey, encIV := key, iv
 		ipd, err := mp4.InitProtect(f.Init, encKey, encIV, scheme, kid, nil)
 		if err != nil {
 			return fail("InitProtect", err)
@@ -1005,6 +1023,11 @@ func evalJobMix(c *jobMixCase, st *stats) *harness.Fail {
 		}
 	}
 
+	if cryptArgsModified.Load() {
+		copy(cryptArgs, cryptArgsPristine)
+		cryptArgsModified.Store(false)
+		return harness.Failf("C20|InitProtect+EncryptFragment|the caller's key / IV buffer was modified", "the bytes of the shared buffer from which key and IV were cut (IV at the front, spare capacity behind it) differ from their pristine copy after these jobs:\n%s", jobList(c))
+	}
 	// ... and the same result as a process that has computed nothing else before
 	if c.Fresh != 0 {
 		if fail := checkFresh(c, ref, st); fail != nil {
@@ -1317,6 +1340,9 @@ func genJobMix(t *rapid.T) jobMixCase {
 			j.Mode = rapid.IntRange(0, 1<<14-1).Draw(t, "buildMode")
 		} else {
 			j.Mode = rapid.IntRange(0, 1).Draw(t, "mode")
+			if j.crypt() && j.Act != "decrypt" {
+				j.Mode |= 2 * rapid.IntRange(0, 1).Draw(t, "iv8") // bit 1: an 8-byte IV (the front of the shared buffer)
+			}
 		}
 		c.Jobs = append(c.Jobs, j)
 	}
